@@ -241,10 +241,10 @@ def oracle(seed=3, trials=25):
             r = mim.combine_regions(cont)
         pix = hp.nside2resol(2 ** eff, arcmin=True) / 60
         v0 = hp.ang2vec(real_np.radians(90 - dec), real_np.radians(ra))
-        for _ in range(60):
-            # random point at angular distance d from the centre
-            d = rng.choice([rng.uniform(0, rad * 0.999), rng.uniform(rad + 3.2 * pix, min(179, rad + 3.2 * pix + 10))])
-            pa = rng.uniform(0, 360)
+        for it in range(61):
+            # the centre itself, then random points at angular distance d from the centre
+            d = 0.0 if it == 0 else rng.choice([rng.uniform(0, rad * 0.999), rng.uniform(rad + 3.2 * pix, min(179, rad + 3.2 * pix + 10))])
+            pa = 0.0 if it == 0 else rng.uniform(0, 360)
             at = loader.real('angle_tools')
             if abs(dec) > 89.9:
                 pra, pdec = pa, (90 - d if dec > 0 else -90 + d)
@@ -258,6 +258,13 @@ def oracle(seed=3, trials=25):
                 return True, 'circle-hole', 'circle (%.3f, %.3f, r=%.3f) depth %d does not contain the point %.4f deg from its centre at (%.4f, %.4f)' % (ra, dec, rad, depth, d, pra, pdec)
             if d > rad + 3 * pix and inside:
                 return True, 'circle-spill', 'circle (%.3f, %.3f, r=%.3f) depth %d contains a point %.4f deg from its centre' % (ra, dec, rad, depth, d)
+        if it == 60 and abs(dec) == 90.0:
+            # the pole itself at several right ascensions, as scalars and inside a vector
+            ras_ = real_np.array([0.0, 123.4, 359.9, 180.0])
+            got_ = r.sky_within(ras_, real_np.full(4, dec), degin=True)
+            got2_ = r.sky_within(real_np.radians(ras_), real_np.full(4, real_np.radians(dec)), degin=False)
+            if not (all(bool(g) for g in got_) and all(bool(g) for g in got2_)):
+                return True, 'pole-outside', 'circle of radius %.3f deg centred on dec %+.0f (depth %d): sky_within at the pole itself answers %s (degrees) / %s (radians)' % (rad, dec, depth, [bool(g) for g in got_], [bool(g) for g in got2_])
         area = r.get_area()
         cap = lambda x: 2 * real_np.pi * (1 - real_np.cos(real_np.radians(x))) * (180 / real_np.pi) ** 2
         if not (cap(rad) * 0.999 <= area <= cap(min(180, rad + 3 * pix)) * 1.001):
